@@ -49,6 +49,65 @@ type FuncReport struct {
 	Paths      int
 	Ctx        *FnCtx
 	HasContract bool
+	Dropped     []string // positions of loop clauses that no longer bind (dropped for this run)
+}
+
+// unboundLoopClause: does the error message point at a loop clause of the contract (by its file:line position)?
+func unboundLoopClause(ct *Contract, msg string) (string, bool) {
+	if !strings.Contains(msg, ": spec: ") || strings.Contains(msg, "unknown identifier") {
+		return "", false
+	}
+	has := func(cs []Clause) (string, bool) {
+		for _, cl := range cs {
+			if cl.Pos != "" && strings.Contains(msg, cl.Pos+":") {
+				return cl.Pos, true
+			}
+		}
+		return "", false
+	}
+	for _, ls := range ct.Loops {
+		if p, ok := has(ls.Invs); ok {
+			return p, true
+		}
+	}
+	for _, ls := range ct.Inspects {
+		if p, ok := has(ls.Invs); ok {
+			return p, true
+		}
+		if p, ok := has(ls.Asserts); ok {
+			return p, true
+		}
+	}
+	return "", false
+}
+
+func dropLoopClause(ct *Contract, pos string) *Contract {
+	nc := *ct
+	filter := func(cs []Clause) []Clause {
+		var out []Clause
+		for _, cl := range cs {
+			if cl.Pos != pos {
+				out = append(out, cl)
+			}
+		}
+		return out
+	}
+	nc.Loops = map[int]*LoopSpec{}
+	for k, ls := range ct.Loops {
+		c2 := *ls
+		c2.Invs = filter(ls.Invs)
+		c2.entry = nil
+		nc.Loops[k] = &c2
+	}
+	nc.Inspects = map[string]*LoopSpec{}
+	for k, ls := range ct.Inspects {
+		c2 := *ls
+		c2.Invs = filter(ls.Invs)
+		c2.Asserts = filter(ls.Asserts)
+		c2.entry = nil
+		nc.Inspects[k] = &c2
+	}
+	return &nc
 }
 
 func (e *Engine) verifyFunc(fi *FuncInfo, sweep bool) *FuncReport {
@@ -59,6 +118,23 @@ func (e *Engine) verifyFunc(fi *FuncInfo, sweep bool) *FuncReport {
 		return rep
 	}
 	err := c.verify()
+	// A loop clause (invariant / call-site clause) whose expression no longer type-checks against the code - the loops of
+	// the function were restructured - does not bind any more: it is dropped and the function is verified again, so that
+	// the obligations of the remaining contract (pre/postconditions, frames) are still generated and decided. A clause that
+	// names a local that no longer exists (a renamed local) is not dropped: the function is then reported as outside the
+	// subset (undecided), never as a violation.
+	for try := 0; err != nil && try < 16 && c.contract != nil && !sweep; try++ {
+		pos, ok := unboundLoopClause(c.contract, err.Error())
+		if !ok {
+			break
+		}
+		rep.Dropped = append(rep.Dropped, pos)
+		nc := dropLoopClause(c.contract, pos)
+		c = e.newFnCtx(fi, sweep)
+		c.contract = nc
+		rep.Ctx = c
+		err = c.verify()
+	}
 	if err != nil {
 		rep.Err = err.Error()
 		return rep
@@ -306,7 +382,7 @@ func (c *FnCtx) emitLibAxioms() {
 			symbolsOf(t.String(), syms)
 			var needs []string
 			for sname := range syms {
-				if strings.HasPrefix(sname, "fn_") || strings.HasPrefix(sname, "sf_") || strings.HasPrefix(sname, "G_") {
+				if strings.HasPrefix(sname, "fn_") || strings.HasPrefix(sname, "sf_") || strings.HasPrefix(sname, "G_") || strings.HasPrefix(sname, "F_") {
 					needs = append(needs, sname)
 				}
 			}
